@@ -29,17 +29,32 @@ func (ex *Exec) evalSpec(fn *ssa.Function, args []Val) []clauseInst {
 	ex.ghost++
 	ex.ctx.noAbbrev++
 	savedCollect := ex.collect
+	savedFacts := ex.collectFacts
 	var out []clauseInst
+	var facts []*Term
 	ex.collect = &out
+	ex.collectFacts = &facts
 	defer func() {
 		ex.ghost--
 		ex.ctx.noAbbrev--
 		ex.collect = savedCollect
+		ex.collectFacts = savedFacts
 	}()
 	st := &State{pc: TTrue, heap: map[string]*Term{}, base: placeholderBase("CUR.")}
 	fr := ex.newFrame(fn, args, nil, nil)
 	fr.run(st)
-	return out
+	// facts first: they are assumed before the clauses are used
+	seen := map[string]bool{}
+	var res []clauseInst
+	for _, f := range facts {
+		k := f.String()
+		if f.Op == "true" || seen[k] {
+			continue
+		}
+		seen[k] = true
+		res = append(res, clauseInst{Kind: "fact", Cond: f, PC: TTrue})
+	}
+	return append(res, out...)
 }
 
 // substPrefix renames heap placeholders.
@@ -333,6 +348,11 @@ func (fr *Frame) applyContract(st *State, fn *ssa.Function, c *LoadedContract, a
 		}
 	}
 	for _, cl := range clauses {
+		if cl.Kind == "fact" {
+			ex.assume(st, ex.inst(cl.Cond, st, st))
+		}
+	}
+	for _, cl := range clauses {
 		if cl.Kind == "requires" {
 			g := ex.inst(Implies(cl.PC, cl.Cond), st, st)
 			ex.assert(st, "pre", cl.Name+"@"+key+"<-"+fr.fn.Name()+fr.siteSuffix(pos), cl.Tags, g, fr.pos(pos))
@@ -363,9 +383,19 @@ func (fr *Frame) applyContract(st *State, fn *ssa.Function, c *LoadedContract, a
 		nw := ex.ctx.Fresh("hv."+comp, sort)
 		st.heap[comp] = nw
 		ex.written[comp] = true
+		ex.writeLog = append(ex.writeLog, writeRec{comp: comp, freshOnly: frame.freshOnly[comp]})
 		if comp == "Alloc" {
 			r := Bound{Name: ex.boundName("r"), Sort: SRef}
 			ex.assume(st, Forall([]Bound{r}, Implies(Select(old, V(r.Name, SRef)), Select(nw, V(r.Name, SRef)))))
+		}
+		if frame.freshOnly[comp] && strings.HasPrefix(sort, "(Array Ref ") {
+			// the callee writes this component only at objects it allocates itself
+			ex.preserveAllocated(st, ex.get(pre, "Alloc", ArraySort(SRef, SBool)), old, nw)
+		}
+	}
+	for _, cl := range clauses {
+		if cl.Kind == "fact" {
+			ex.assume(st, ex.inst(cl.Cond, pre, st))
 		}
 	}
 	for _, cl := range clauses {
@@ -492,6 +522,11 @@ func (fr *Frame) enterLoop(li *loopInfo, st *State, b *ssa.BasicBlock) {
 		cls, ok := fr.loopClauses(st, li)
 		if ok {
 			for _, cl := range cls {
+				if cl.Kind == "fact" {
+					ex.assume(st, ex.inst(cl.Cond, fr.pre, st))
+				}
+			}
+			for _, cl := range cls {
 				if cl.Kind == "invariant" {
 					ex.assert(st, fmt.Sprintf("loop%d.entry", li.ord), cl.Name, cl.Tags, ex.inst(Implies(cl.PC, cl.Cond), fr.pre, st), fr.pos(li.pos))
 				}
@@ -522,6 +557,7 @@ func (fr *Frame) enterLoop(li *loopInfo, st *State, b *ssa.BasicBlock) {
 			fr.loadFacts(st, nv, phi.Type())
 		}
 	}
+	allocAtEntry := ex.get(st, "Alloc", ArraySort(SRef, SBool))
 	for _, comp := range sortedKeys(mod) {
 		sort := ex.compSort[comp]
 		old := ex.get(st, comp, sort)
@@ -531,13 +567,18 @@ func (fr *Frame) enterLoop(li *loopInfo, st *State, b *ssa.BasicBlock) {
 			r := Bound{Name: ex.boundName("r"), Sort: SRef}
 			ex.assume(st, Forall([]Bound{r}, Implies(Select(old, V(r.Name, SRef)), Select(nw, V(r.Name, SRef)))))
 		}
+		if li.freshOnly[comp] && ex.ghost == 0 && strings.HasPrefix(sort, "(Array Ref ") {
+			// the body writes this component only at objects it allocates itself:
+			// objects that existed when the loop was entered keep their value
+			ex.preserveAllocated(st, allocAtEntry, old, nw)
+		}
 	}
 	// 4. assume the invariant
 	if ex.ghost == 0 {
 		cls, ok := fr.loopClauses(st, li)
 		if ok {
 			for _, cl := range cls {
-				if cl.Kind == "invariant" {
+				if cl.Kind == "invariant" || cl.Kind == "fact" {
 					ex.assume(st, ex.inst(Implies(cl.PC, cl.Cond), fr.pre, st))
 				}
 			}
@@ -570,6 +611,11 @@ func (fr *Frame) backEdge(li *loopInfo, st *State, from *ssa.BasicBlock) {
 	cls, ok := fr.loopClauses(st, li)
 	if ok {
 		for _, cl := range cls {
+			if cl.Kind == "fact" {
+				ex.assume(st, ex.inst(cl.Cond, fr.pre, st))
+			}
+		}
+		for _, cl := range cls {
 			if cl.Kind == "invariant" {
 				ex.assert(st, fmt.Sprintf("loop%d.step", li.ord), cl.Name, cl.Tags, ex.inst(Implies(cl.PC, cl.Cond), fr.pre, st), fr.pos(li.pos))
 			}
@@ -597,6 +643,8 @@ func (fr *Frame) loopMod(li *loopInfo, st *State) map[string]bool {
 	savedSpawn := len(ex.spawned)
 	ex.quiet++
 	fr.dry++
+	logStart := len(ex.writeLog)
+	n0 := ex.ctx.n
 	func() {
 		defer func() {
 			ex.quiet--
@@ -604,6 +652,7 @@ func (fr *Frame) loopMod(li *loopInfo, st *State) map[string]bool {
 		}()
 		fr.runBlocks(li, st.clone())
 	}()
+	li.freshOnly = ex.freshOnlyComps(logStart, n0)
 	mod := ex.written
 	ex.written = savedWritten
 	for k := range mod {
